@@ -63,6 +63,9 @@ func genE2ETail(r *rand.Rand) e2eCase {
 			ex.Projs[1].Alias = "?val"
 		case 1:
 			ex.Projs = []jproj{{Bind: "?x", Alias: "?val"}, {Bind: "?s", Alias: "?x"}} // the alias ?x shadows the binding ?x
+			if r.Intn(2) == 0 { // ... and is assigned BEFORE the shadowed binding is projected
+				ex.Projs = []jproj{{Bind: "?s", Alias: "?x"}, {Bind: "?x", Alias: "?val"}}
+			}
 		}
 	}
 	var ps []string
